@@ -992,6 +992,31 @@ def call_table():
         add(tj + cls + ".get_statistics", lambda I, o=obj: ({o: I.trajs[o]}, lambda: I.trajs[o].get_statistics(),
                                                             ([o], "RInfo 0 false") if o == "A" else None))
         add(tj + cls + ".split_distance_gaps", lambda I, o=obj: ({o: I.trajs[o]}, lambda: I.trajs[o].split_distance_gaps(10.0), None))
+    # comparing is reading: both operands of == / != are arguments. Operands that describe the same poses (all close)
+    # while some / all poses store the quaternion with the opposite sign (q and -q are the same rotation: data from
+    # another source), in both operand orders; the twin is stored as positions + quaternions (that is where a sign lives)
+    def q_twin(I, t, rows):
+        key = "twin_%d_%s" % (id(t), "_".join(map(str, rows)))
+        if key not in I.__dict__:
+            c = copy.deepcopy(t)
+            xyz, quat = np.array(c.positions_xyz), np.array(c.orientations_quat_wxyz)
+            quat[list(rows)] *= -1.0
+            tw = PoseTrajectory3D(xyz, quat, np.array(t.timestamps)) if isinstance(t, PoseTrajectory3D) else PosePath3D(xyz, quat)
+            if all(a_ in t.__dict__ for a_ in LAZY):    # same cache state as the table's trajectories
+                tw.positions_xyz, tw.orientations_quat_wxyz, tw.poses_se3
+            I.__dict__[key] = tw
+        return I.__dict__[key]
+
+    def eq_both(x, y):
+        return (x == y, x != y, x == y)
+    for cls, obj in (("PosePath3D", "P"), ("PoseTrajectory3D", "A")):
+        for rows in ((1, 4, 7), tuple(range(10)), (0,), ()):
+            add(tj + cls + ".__eq__", lambda I, o=obj, rows=rows: (
+                {o: I.trajs[o], "other": q_twin(I, I.trajs[o], rows)},
+                lambda: eq_both(I.trajs[o], q_twin(I, I.trajs[o], rows)), None))
+            add(tj + cls + ".__eq__", lambda I, o=obj, rows=rows: (
+                {"self": q_twin(I, I.trajs[o], rows), o: I.trajs[o]},
+                lambda: eq_both(q_twin(I, I.trajs[o], rows), I.trajs[o]), None))
     for prop, rdr in (("positions_xyz", "RPlotPositions [0]"), ("distances", "RInfo 0 false"),
                       ("path_length", "RInfo 0 false"), ("orientations_quat_wxyz", None), ("poses_se3", "RPlotAxes 0"),
                       ("num_poses", "RPlotRpy 0")):
@@ -1122,6 +1147,19 @@ def call_table():
     add(re_ + "Result.__init__", lambda I: ({}, lambda: result.Result(), None))
     add(re_ + "Result.__str__", res_variant(lambda I, r, o: str(r)))
     add(re_ + "Result.__eq__", res_variant(lambda I, r, o: (r == o, r != o)))
+    # results that hold the same trajectories, one of them with q / -q quaternions in some poses (both operand orders)
+    def res_eq_variant(rows, swap):
+        def v(I):
+            r = I.result(0)
+            o = copy.deepcopy(r)
+            for name in list(o.trajectories):
+                o.trajectories[name] = q_twin(I, r.trajectories[name], rows)
+            x, y = (o, r) if swap else (r, o)
+            return {"self": x, "other": y}, (lambda: eq_both(x, y)), None
+        return v
+    for rows in ((2, 3, 8), tuple(range(10))):
+        for swap in (False, True):
+            add(re_ + "Result.__eq__", res_eq_variant(rows, swap))
     add(re_ + "Result.pretty_str", res_variant(lambda I, r, o: r.pretty_str(info=True)))
     add(re_ + "Result.add_np_array", res_variant(lambda I, r, o: r.add_np_array("x", I.err)))
     add(re_ + "Result.add_info", res_variant(lambda I, r, o: r.add_info(I.dd)))
@@ -1468,6 +1506,91 @@ def call_table():
         add("evo.main_ape.ape", lambda I, rel=rel, kw=kw: (
             {"traj_ref": I.A, "traj_est": I.B, "path_ref": I.P, "path_est": I.Q},
             lambda: ape_twice(I, [(I.A, I.B), (I.P, I.Q)], rel, kw), None))
+
+    # ---------------- the command line layer of evo_ape / evo_rpe with --plot_full_ref: "the full reference" it hands to
+    # the plot is an object derived from the loaded reference (a copy kept for plotting).  Later operations of the same
+    # run on the loaded reference - projection (--project_to_plane), the restriction to the delta ids (evo_rpe), alignment,
+    # --downsample / --motion_filter - must not change the poses seen through it: at the time of the plot and afterwards
+    # it shows exactly the poses of the reference file.  Inputs without timestamps (kitti: no association step in between)
+    # and with timestamps (tum).
+    def pose_views(t):
+        v = views(t)
+        return {k_: v[k_] for k_ in ("class", "num_poses", "positions_xyz", "orientations_quat_wxyz", "poses_se3",
+                                     "projected", "timestamps") if k_ in v}
+
+    def cli_full_ref(I, app, fmt, extra):
+        import logging
+        from evo import common_ape_rpe, main_ape, main_ape_parser, main_rpe, main_rpe_parser
+        mod, pmod = (main_ape, main_ape_parser) if app == "ape" else (main_rpe, main_rpe_parser)
+        ref_file, est_file = os.path.join(I.tmp, "ref." + fmt), os.path.join(I.tmp, "est." + fmt)
+        if fmt == "kitti":
+            fi.write_kitti_poses_file(ref_file, I.P)
+            fi.write_kitti_poses_file(est_file, I.Q)
+            load = fi.read_kitti_poses_file
+        else:
+            fi.write_tum_trajectory_file(ref_file, I.A)
+            fi.write_tum_trajectory_file(est_file, I.B)
+            load = fi.read_tum_trajectory_file
+        extra = list(extra[:-1]) + [os.path.join(I.tmp, extra[-1])]      # the last option is the plot output file
+        argv = [fmt, ref_file, est_file] + extra + ["--plot_full_ref", "--no_warnings", "--silent"]
+        what = "evo_%s %s" % (app, " ".join(a_ if not a_.startswith(I.tmp) else os.path.basename(a_) for a_ in argv))
+        seen = {}
+        orig = common_ape_rpe.plot_result
+
+        def spy(args, result, traj_ref, traj_est, traj_ref_full=None):
+            seen["full"] = traj_ref_full
+            seen["at_plot"] = None if traj_ref_full is None else pose_views(traj_ref_full)
+            return orig(args, result, traj_ref, traj_est, traj_ref_full=traj_ref_full)
+        lg = logging.getLogger("evo")
+        saved = (list(lg.handlers), lg.level, lg.propagate)
+        common_ape_rpe.plot_result = spy
+        try:
+            mod.run(pmod.parser().parse_args(argv))
+        finally:
+            common_ape_rpe.plot_result = orig
+            for h in list(lg.handlers):
+                lg.removeHandler(h)
+            for h in saved[0]:
+                lg.addHandler(h)
+            lg.setLevel(saved[1])
+            lg.propagate = saved[2]
+        if "full" not in seen:
+            raise HarnessError("C16: %s did not reach common_ape_rpe.plot_result" % what)
+        if seen["full"] is None:
+            raise Violation("%s: no full reference was handed to the plot" % what)
+        want = pose_views(load(ref_file))
+        for when, got in (("when the plot is drawn", seen["at_plot"]), ("after the run", pose_views(seen["full"]))):
+            for k_ in want:
+                if got.get(k_) != want[k_]:
+                    raise Violation(
+                        "%s: the full reference kept for the plot (a copy of the loaded reference file, %d poses) shows "
+                        "other data %s: %s differs (it has %d poses, projected=%r) - operations of the run on the reference "
+                        "(projection / reduction to the delta ids / filtering) reached it" % (
+                            what, want["num_poses"], when, k_, got.get("num_poses"), got.get("projected")))
+
+    def cli_variant(app, fmt, extra, slot):
+        def v(I):
+            warm = all(a_ in I.P.__dict__ for a_ in LAZY)
+            # the files do not depend on the storage mode / cache state of the table's trajectories: one slot runs it
+            if (I.mode, warm) != slot:
+                return {}, (lambda: None), None
+            return {"P": I.P, "Q": I.Q, "A": I.A, "B": I.B}, (lambda: cli_full_ref(I, app, fmt, extra)), None
+        add("evo.main_%s.run" % app, v)
+    SER, PNG = ["--serialize_plot", "full_ref.evo"], ["--save_plot", "full_ref.png"]
+    CLI_FULL_REF = [
+        ("ape", "kitti", ["--project_to_plane", "xy", "--plot_mode", "xz"], ("mat", False), SER),
+        ("ape", "kitti", ["--project_to_plane", "yz", "--align", "--correct_scale"], ("pq", False), SER),
+        ("ape", "kitti", ["-r", "full"], ("mat", True), PNG),
+        ("ape", "kitti", ["--downsample", "6", "--project_to_plane", "xz"], ("pq", True), SER),
+        ("ape", "tum", ["--project_to_plane", "xy", "--align_origin"], ("pq", False), SER),
+        ("rpe", "kitti", ["--delta", "3", "--delta_unit", "f", "--plot_mode", "xz"], ("mat", False), SER),
+        ("rpe", "kitti", ["--project_to_plane", "xz"], ("pq", False), SER),
+        ("rpe", "kitti", ["--delta", "2", "--delta_unit", "f", "--all_pairs", "--project_to_plane", "xy"], ("mat", True), SER),
+        ("rpe", "tum", ["--motion_filter", "0.5", "10", "--delta", "2", "--delta_unit", "f"], ("pq", True), SER),
+        ("rpe", "tum", ["--delta", "2", "--delta_unit", "f", "--project_to_plane", "yz"], ("mat", False), SER),
+    ]
+    for app, fmt, extra, slot, outp in CLI_FULL_REF:
+        cli_variant(app, fmt, extra + outp, slot)
     return T
 
 
@@ -1686,7 +1809,10 @@ def run(ctx, replay=None, proofs_ok=True):
         "rule": "(a) every entry of the call table (public functions of evo.core / evo.tools + the plotting step of evo_ape / "
                 "evo_rpe, common_ape_rpe.plot_result, with every colormap option + the metric entry points main_ape.ape and "
                 "main_rpe.rpe(support_loop=True) with frame / metre / angle deltas, consecutive and all pairs, called twice on the "
-                "same objects, in-place operations on the stored copies) x variants x {matrix, xyz+quaternion "
+                "same objects, in-place operations on the stored copies + == / != of paths, trajectories and Results whose operands "
+                "hold the same poses with q / -q quaternions, both operand orders + the command line layer main_ape.run / "
+                "main_rpe.run with --plot_full_ref (kitti and tum input, projection / delta > 1 / alignment / downsample / "
+                "motion filter): the full reference handed to the plot shows the reference file's poses) x variants x {matrix, xyz+quaternion "
                 "storage} x {cold, warm caches}; "
                 "(b,c) corpus (F5a/F5b reproducers, PosePath3D) + systematic 2-step histories (15 derivations x 20 "
                 "in-place operations x 2 storage modes x 4 cache states of the source; quick: every 3rd) + association of "
